@@ -24,7 +24,8 @@ from .linearfit import SUPPORTED_FITGEOM_MODES
 from .wcsutils import planar_rot_3d
 from .correctors import WCSCorrector
 from .linalg import inv
-from .linearfit import iter_linear_fit
+from .linearfit import (iter_linear_fit, SingularMatrixError,
+                        NotEnoughPointsError)
 
 from . import __version__  # noqa: F401
 
@@ -1403,9 +1404,25 @@ class WCSGroupCatalog(object):
                 imcat.fit_status = 'FAILED: not enough matches'
             return False
 
-        fit = self.fit2ref(refcat=refcat, tanplane_wcs=ref_tpwcs,
-                           fitgeom=fitgeom, nclip=nclip, sigma=sigma,
-                           clip_accum=clip_accum)
+        try:
+            fit = self.fit2ref(refcat=refcat, tanplane_wcs=ref_tpwcs,
+                               fitgeom=fitgeom, nclip=nclip, sigma=sigma,
+                               clip_accum=clip_accum)
+        except (SingularMatrixError, NotEnoughPointsError) as e:
+            # degenerate configuration of matched sources (e.g., colinear
+            # or coincident sources, too few sources with positive weights):
+            # report failure for this group instead of aborting alignment
+            # of the remaining images in mid-run.
+            name = 'Unnamed' if self.name is None else self.name
+            log.warning("Fit failed for image catalog '{:s}': {}"
+                        .format(name, e))
+            if isinstance(e, SingularMatrixError):
+                status = 'FAILED: singular matrix'
+            else:
+                status = 'FAILED: not enough points'
+            for imcat in self:
+                imcat.fit_status = status
+            return False
 
         fit_info = {
             'fitgeom': fitgeom,
